@@ -819,7 +819,7 @@ class SimpleShape(DefinedShape):
             raise ValueError
         if not isinstance(other, SimpleShape):
             return False
-        if float(self) != float(other):
+        if abs(float(self) - float(other)) > 1e-6:
             return False
         return self.jordans[0] == other.jordans[0]
 
@@ -964,6 +964,16 @@ class ConnectedShape(DefinedShape):
             return False
         if abs(float(self) - float(other)) > 1e-6:
             return False
+        if len(self.subshapes) != len(other.subshapes):
+            return False
+        others = list(other.subshapes)
+        for subshape in self.subshapes:
+            for j, othershape in enumerate(others):
+                if subshape == othershape:
+                    others.pop(j)
+                    break
+            else:
+                return False
         return True
 
     def __invert__(self) -> DisjointShape:
@@ -1078,7 +1088,7 @@ class DisjointShape(DefinedShape):
         assert isinstance(other, BaseShape)
         if not isinstance(other, DisjointShape):
             return False
-        if float(self) != float(other):
+        if abs(float(self) - float(other)) > 1e-6:
             return False
         self_subshapes = list(self.subshapes)
         othe_subshapes = list(other.subshapes)
